@@ -6,7 +6,8 @@ From Coq Require Import ZifyN ZifyNat ZifyBool Lia.
 Definition AInv (thld : N) (a : aht) : Prop :=
   wf (a_d a) /\ wf (a_c a) /\ a_latest a + a_cnt a = a_size a /\ a_cnt a < thld /\
   32 * a_size a <= f_offset (a_d a) /\ pending (a_c a) = [] /\ buf (a_c a) = [] /\
-  12 * a_latest a <= bufoff (a_c a) /\ 32 * (len (durable (a_c a)) / 12) <= len (durable (a_d a)).
+  12 * a_latest a <= bufoff (a_c a) /\ bufoff (a_c a) = len (durable (a_c a)) /\
+  len (durable (a_c a)) mod 12 = 0.
 
 Lemma len_aht_entries from cnt : len (aht_entries from cnt) = 12 * N.of_nat cnt.
 Proof.
@@ -18,121 +19,160 @@ Qed.
 Lemma os_view_nopending f : pending f = [] -> os_view f = durable f.
 Proof. unfold os_view. intros ->. reflexivity. Qed.
 
-Lemma len_durable_le_os f : len (durable f) <= len (os_view f).
-Proof. apply apply_writes_len. Qed.
+Lemma f_setoffset_some keep f o : o <= f_offset f -> exists g, f_setoffset_gen keep f o = Some g.
+Proof.
+  intros Ho. unfold f_setoffset_gen. destruct (N.ltb_spec (f_offset f) o); [lia|].
+  destruct (bufoff f <=? o); eauto.
+Qed.
+
+(* the tree's commit log after a rewind to o (nothing pending, nothing buffered) and an append + fsync *)
+Lemma clog_rewrite c o ents c1 :
+  wf c -> pending c = [] -> buf c = [] -> bufoff c = len (durable c) -> o <= bufoff c ->
+  f_setoffset c o = Some c1 ->
+  let c2 := f_sync (f_append c1 ents) in
+  wf c2 /\ pending c2 = [] /\ buf c2 = [] /\ bufoff c2 = o + len ents /\
+  durable c2 = take o (durable c) ++ ents.
+Proof.
+  intros Wc Hp Hb Hl Ho Es. cbv zeta.
+  destruct (f_setoffset_spec _ _ _ _ Wc Es) as (S1 & S2 & S3 & S4 & S5 & S6 & S7 & S8 & S9 & S10 & _).
+  specialize (S10 Hb).
+  assert (W2: wf (f_append c1 ents)) by (apply wf_append; auto).
+  destruct (f_sync_spec _ W2) as (D1 & D2 & D3 & D4).
+  assert (Lv: o <= len (lview c)).
+  { rewrite len_lview by auto. rewrite os_view_nopending by auto. lia. }
+  specialize (S7 Lv).
+  assert (Lvc: lview c = durable c).
+  { unfold lview. rewrite Hb, wr_nil. apply os_view_nopending; auto. }
+  assert (Lv1: lview c1 = take o (durable c)).
+  { assert (Ll1: len (lview c1) = o).
+    { rewrite len_lview by auto. unfold f_offset in *. rewrite S10, len_nil in *.
+      destruct (N.le_gt_cases (bufoff c) o) as [Hle|Hgt].
+      - rewrite (S8 Hle) in *. unfold os_view. rewrite (S5 Hle), Hp. cbn [apply_writes fold_left]. rewrite S4. lia.
+      - rewrite (S9 Hgt) in *. unfold os_view. rewrite (S6 Hgt), Hp, S4. cbn [app apply_writes fold_left apply1].
+        rewrite len_take. lia. }
+    rewrite <- (take_ge o (lview c1)) by lia. rewrite S7, Lvc. reflexivity. }
+  split; [apply wf_sync; auto|]. split; [exact D2|]. split; [exact D3|]. split.
+  - rewrite D4. unfold f_offset. cbn [f_append bufoff buf]. rewrite len_app. unfold f_offset in S3. lia.
+  - rewrite D1. rewrite lview_append by auto. rewrite Lv1, S3. unfold wr.
+    rewrite take_ge by (rewrite len_take; lia).
+    rewrite drop_ge by (rewrite len_take; lia). rewrite app_nil_r. reflexivity.
+Qed.
 
 (* sync with K = latest + cnt pending entries accounted for *)
 Lemma aht_sync_ok a K :
   wf (a_d a) -> wf (a_c a) -> a_latest a + a_cnt a = K -> 32 * K <= f_offset (a_d a) ->
   pending (a_c a) = [] -> buf (a_c a) = [] -> 12 * a_latest a <= bufoff (a_c a) ->
-  32 * (len (durable (a_c a)) / 12) <= len (durable (a_d a)) ->
+  bufoff (a_c a) = len (durable (a_c a)) -> len (durable (a_c a)) mod 12 = 0 ->
   exists a', aht_sync a = Ok a' /\ a_size a' = a_size a /\ a_latest a' = K /\ a_cnt a' = 0 /\
     wf (a_d a') /\ wf (a_c a') /\ f_offset (a_d a') = f_offset (a_d a) /\
     pending (a_c a') = [] /\ buf (a_c a') = [] /\ 12 * K <= bufoff (a_c a') /\
-    32 * (len (durable (a_c a')) / 12) <= len (durable (a_d a')) /\
-    len (durable (a_d a)) <= len (durable (a_d a')).
+    bufoff (a_c a') = len (durable (a_c a')) /\ len (durable (a_c a')) mod 12 = 0.
 Proof.
-  intros Wd Wc HK H32 Hp Hb H12 Hdur. unfold aht_sync.
+  intros Wd Wc HK H32 Hp Hb H12 Hbl Hm. unfold aht_sync.
   destruct (N.eqb_spec (a_cnt a) 0) as [E0|N0].
   - exists a. repeat split; auto; try lia.
-  - destruct (f_setoffset (a_c a) (12 * a_latest a)) as [c1|] eqn:Es.
-    2:{ unfold f_setoffset in Es. unfold f_offset in Es. rewrite Hb, len_nil in Es.
-        destruct (N.ltb_spec (bufoff (a_c a) + 0) (12 * a_latest a)); [lia|].
-        destruct (bufoff (a_c a) <=? 12 * a_latest a); discriminate. }
-    destruct (f_setoffset_spec _ _ _ Wc Es) as (S1 & S2 & S3 & S4 & S5 & _ & _ & _ & _ & S9).
-    specialize (S9 Hb).
+  - destruct (f_setoffset_some false (a_c a) (12 * a_latest a)) as (c1 & Es).
+    { unfold f_offset. lia. }
+    unfold f_setoffset. rewrite Es.
     set (ents := aht_entries (a_latest a) (N.to_nat (a_cnt a))).
     assert (Le: len ents = 12 * a_cnt a) by (unfold ents; rewrite len_aht_entries; lia).
-    set (c2 := f_append c1 ents).
-    assert (W2: wf c2) by (apply wf_append; auto).
-    destruct (f_sync_spec c2 W2) as (D1 & D2 & D3 & D4).
+    destruct (clog_rewrite (a_c a) (12 * a_latest a) ents c1 Wc Hp Hb Hbl H12 Es) as (C1 & C2 & C3 & C4 & C5).
     destruct (f_sync_spec (a_d a) Wd) as (E1 & E2 & E3 & E4).
     eexists. split; [reflexivity|]. cbn [a_size a_latest a_cnt a_d a_c].
-    assert (Lv1: lview c1 = durable (a_c a)).
-    { unfold lview. rewrite S9, wr_nil. unfold os_view. rewrite S5, S4, Hp. reflexivity. }
-    assert (O1: f_offset c1 = 12 * a_latest a) by exact S3.
-    assert (Ld: len (durable (f_sync c2)) = N.max (len (durable (a_c a))) (12 * K)).
-    { rewrite D1. unfold c2. rewrite lview_append by auto. rewrite Lv1, O1.
-      rewrite len_wr.
-      - rewrite Le. lia.
-      - unfold wf in S2. unfold f_offset in O1. rewrite S9, len_nil in O1.
-        rewrite os_view_nopending in S2 by congruence. rewrite S4 in S2. lia. }
+    assert (Ld: len (take (12 * a_latest a) (durable (a_c a)) ++ ents) = 12 * K).
+    { rewrite len_app, len_take, Le. lia. }
     repeat split; auto; try lia.
     + apply wf_sync; auto.
-    + apply wf_sync; auto.
     + unfold f_offset at 1. rewrite E3, E4, len_nil. lia.
-    + rewrite D4. unfold c2, f_offset. cbn [f_append bufoff buf]. rewrite len_app, Le.
-      unfold f_offset in O1. lia.
-    + rewrite Ld, E1. rewrite len_lview by auto.
-      pose proof (len_durable_le_os (a_d a)). lia.
-    + rewrite E1, len_lview by auto. pose proof (len_durable_le_os (a_d a)). lia.
+    + rewrite C4, C5, Ld, Le. lia.
+    + rewrite C5, Ld. rewrite N.mul_comm. apply N.mod_mul. lia.
 Qed.
 
 Lemma aht_append_ok thld a leaf :
   AInv thld a -> len leaf = 32 ->
-  exists a', aht_append thld a leaf = Ok a' /\ AInv thld a' /\ a_size a' = a_size a + 1 /\
-             len (durable (a_d a)) <= len (durable (a_d a')).
+  exists a', aht_append thld a leaf = Ok a' /\ AInv thld a' /\ a_size a' = a_size a + 1.
 Proof.
-  intros (Wd & Wc & Hs & Hc & H32 & Hp & Hb & H12 & Hdur) Hl. unfold aht_append.
-  destruct (f_setoffset (a_d a) (32 * a_size a)) as [d1|] eqn:Es.
-  2:{ unfold f_setoffset in Es. destruct (N.ltb_spec (f_offset (a_d a)) (32 * a_size a)); [lia|].
-      destruct (bufoff (a_d a) <=? 32 * a_size a); discriminate. }
-  destruct (f_setoffset_spec _ _ _ Wd Es) as (S1 & S2 & S3 & S4 & S5 & _).
+  intros (Wd & Wc & Hs & Hc & H32 & Hp & Hb & H12 & Hbl & Hm) Hl. unfold aht_append.
+  destruct (f_setoffset_some false (a_d a) (32 * a_size a) H32) as (d1 & Es).
+  unfold f_setoffset. rewrite Es.
+  destruct (f_setoffset_spec _ _ _ _ Wd Es) as (S1 & S2 & S3 & S4 & _).
   set (d2 := f_append d1 leaf).
   assert (W2: wf d2) by (apply wf_append; auto).
   assert (O2: f_offset d2 = 32 * a_size a + 32).
   { unfold d2, f_offset. cbn [f_append bufoff buf]. rewrite len_app, Hl. unfold f_offset in S3. lia. }
-  assert (D2: durable d2 = durable (a_d a)) by (unfold d2; cbn [f_append durable]; exact S4).
   cbn [a_cnt a_d a_c a_size a_latest].
   destruct (N.eqb_spec (a_cnt a + 1) thld) as [Et|Nt].
   - destruct (aht_sync_ok (mkAht d2 (a_c a) (a_size a) (a_latest a) (a_cnt a + 1)) (a_size a + 1))
       as (a' & Ea & R1 & R2 & R3 & R4 & R5 & R6 & R7 & R8 & R9 & R10 & R11);
       cbn [a_cnt a_d a_c a_size a_latest]; auto; try lia.
-    + rewrite D2. exact Hdur.
-    + rewrite Ea. cbn [bind]. eexists. split; [reflexivity|].
-      cbn [a_cnt a_d a_c a_size a_latest] in R1, R6, R11.
-      split; [|split].
-      * unfold AInv. cbn [a_cnt a_d a_c a_size a_latest]. rewrite R1, R2, R3.
-        repeat split; auto; try lia.
-      * cbn [a_size]. rewrite R1. reflexivity.
-      * cbn [a_d] in *. rewrite D2 in R11. exact R11.
-  - cbn [bind]. eexists. split; [reflexivity|]. split; [|split].
+    rewrite Ea. cbn [bind]. eexists. split; [reflexivity|].
+    cbn [a_cnt a_d a_c a_size a_latest] in R1, R6.
+    split.
+    * unfold AInv. cbn [a_cnt a_d a_c a_size a_latest]. rewrite R1, R2, R3.
+      repeat split; auto; try lia.
+    * cbn [a_size]. rewrite R1. reflexivity.
+  - cbn [bind]. eexists. split; [reflexivity|]. split.
     + unfold AInv. cbn [a_cnt a_d a_c a_size a_latest]. repeat split; auto; try lia.
-      rewrite D2. exact Hdur.
     + reflexivity.
-    + cbn [a_d]. rewrite D2. lia.
-Qed.
-
-Lemma aht_reset_ok thld a n :
-  AInv thld a -> n <= a_size a -> 0 < thld ->
-  exists a', aht_reset a n = Ok a' /\ AInv thld a' /\ a_size a' = n /\
-             len (durable (a_d a)) <= len (durable (a_d a')).
-Proof.
-  intros (Wd & Wc & Hs & Hc & H32 & Hp & Hb & H12 & Hdur) Hn Ht. unfold aht_reset.
-  destruct (N.ltb_spec (a_size a) n); [lia|].
-  destruct (N.eqb_spec (a_size a) n) as [E|N].
-  - exists a. split; [reflexivity|]. split; [unfold AInv; repeat split; auto|split; [auto|lia]].
-  - destruct (aht_sync_ok a (a_size a)) as (a' & Ea & R1 & R2 & R3 & R4 & R5 & R6 & R7 & R8 & R9 & R10 & R11); auto.
-    rewrite Ea. cbn [bind]. eexists. split; [reflexivity|]. split; [|split; [reflexivity|exact R11]].
-    unfold AInv. cbn [a_cnt a_d a_c a_size a_latest]. repeat split; auto; try lia.
-Qed.
-
-Lemma aht_reset_same a n : a_size a = n -> aht_reset a n = Ok a.
-Proof.
-  intros E. unfold aht_reset. destruct (N.ltb_spec (a_size a) n); [lia|].
-  destruct (N.eqb_spec (a_size a) n); [reflexivity|contradiction].
 Qed.
 
 Lemma aht_sync_AInv thld a :
   AInv thld a ->
   exists a', aht_sync a = Ok a' /\ AInv thld a' /\ a_size a' = a_size a /\
-             a_latest a' = a_size a /\ a_cnt a' = 0 /\ f_offset (a_d a') = f_offset (a_d a) /\
-             len (durable (a_d a)) <= len (durable (a_d a')).
+             a_latest a' = a_size a /\ a_cnt a' = 0 /\ f_offset (a_d a') = f_offset (a_d a).
 Proof.
-  intros (Wd & Wc & Hs & Hc & H32 & Hp & Hb & H12 & Hdur).
+  intros (Wd & Wc & Hs & Hc & H32 & Hp & Hb & H12 & Hbl & Hm).
   destruct (aht_sync_ok a (a_size a)) as (a' & Ea & R1 & R2 & R3 & R4 & R5 & R6 & R7 & R8 & R9 & R10 & R11); auto.
   exists a'. split; [exact Ea|]. split; [|repeat split; auto].
   unfold AInv. rewrite R1, R2, R3, R6. repeat split; auto; lia.
+Qed.
+
+Lemma f_append_nil f : f_append f [] = f.
+Proof. unfold f_append. rewrite app_nil_r. destruct f; reflexivity. Qed.
+
+(* ResetSize to a smaller size: with dur = true (proposed repair) the tree's commit log is rewound
+   and fsynced, otherwise only the sizes in memory change *)
+Lemma aht_reset_ok dur thld a n :
+  AInv thld a -> n < a_size a -> 0 < thld ->
+  exists a1 a', aht_sync a = Ok a1 /\ aht_reset dur a n = Ok a' /\ AInv thld a' /\
+    a_size a' = n /\ a_latest a' = n /\ a_cnt a' = 0 /\ a_d a' = a_d a1 /\
+    (dur = false -> a_c a' = a_c a1) /\
+    (dur = true -> durable (a_c a') = take (12 * n) (durable (a_c a1)) /\ len (durable (a_c a')) = 12 * n).
+Proof.
+  intros IA Hn Ht. unfold aht_reset.
+  destruct (N.ltb_spec (a_size a) n); [lia|].
+  destruct (N.eqb_spec (a_size a) n) as [E|N]; [lia|].
+  destruct (aht_sync_AInv _ _ IA) as (a1 & Ea & IA1 & Sz & La & Cn & _).
+  rewrite Ea. cbn [bind]. exists a1.
+  destruct IA1 as (Wd & Wc & Hs & Hc & H32 & Hp & Hb & H12 & Hbl & Hm).
+  destruct dur.
+  - destruct (f_setoffset_some false (a_c a1) (12 * n)) as (c1 & Es); [unfold f_offset; lia|].
+    unfold f_setoffset. rewrite Es.
+    destruct (clog_rewrite (a_c a1) (12 * n) [] c1 Wc Hp Hb Hbl ltac:(lia) Es) as (C1 & C2 & C3 & C4 & C5).
+    rewrite f_append_nil in C1, C2, C3, C4, C5. rewrite app_nil_r in C5. rewrite len_nil in C4.
+    assert (Ld: len (durable (f_sync c1)) = 12 * n) by (rewrite C5, len_take; lia).
+    eexists. split; [reflexivity|]. split; [reflexivity|]. cbn [a_size a_latest a_cnt a_d a_c].
+    split; [|repeat split; auto; discriminate].
+    unfold AInv. cbn [a_size a_latest a_cnt a_d a_c]. repeat split; auto; try lia.
+  - eexists. split; [reflexivity|]. split; [reflexivity|]. cbn [a_size a_latest a_cnt a_d a_c].
+    split; [|repeat split; auto; discriminate].
+    unfold AInv. cbn [a_size a_latest a_cnt a_d a_c]. repeat split; auto; lia.
+Qed.
+
+Lemma aht_reset_same dur a n : a_size a = n -> aht_reset dur a n = Ok a.
+Proof.
+  intros E. unfold aht_reset. destruct (N.ltb_spec (a_size a) n); [lia|].
+  destruct (N.eqb_spec (a_size a) n); [reflexivity|contradiction].
+Qed.
+
+Lemma aht_reset_ok_le dur thld a n :
+  AInv thld a -> n <= a_size a -> 0 < thld ->
+  exists a', aht_reset dur a n = Ok a' /\ AInv thld a' /\ a_size a' = n.
+Proof.
+  intros IA Hn Ht. destruct (N.eq_dec (a_size a) n) as [E|NE].
+  - exists a. split; [apply aht_reset_same; auto|auto].
+  - destruct (aht_reset_ok dur thld a n IA ltac:(lia) Ht) as (a1 & a' & _ & E & IA' & Sz & _).
+    exists a'. auto.
 Qed.
 
 (* sizes, without any invariant *)
@@ -144,13 +184,15 @@ Proof.
   apply Q in E. subst a'. reflexivity.
 Qed.
 
-Lemma aht_reset_size a n a' : aht_reset a n = Ok a' -> a_size a' = n.
+Lemma aht_reset_size dur a n a' : aht_reset dur a n = Ok a' -> a_size a' = n.
 Proof.
   unfold aht_reset. destruct (N.ltb_spec (a_size a) n); [discriminate|].
   destruct (N.eqb_spec (a_size a) n); [congruence|].
   intros E. apply bind_ok in E as (a1 & _ & E).
   assert (Q: forall x y, @Ok aht x = Ok y -> x = y) by (intros ? ? Q; congruence).
-  apply Q in E. subst a'. reflexivity.
+  destruct dur.
+  - destruct (f_setoffset (a_c a1) (12 * n)); [|discriminate]. apply Q in E. subst a'. reflexivity.
+  - apply Q in E. subst a'. reflexivity.
 Qed.
 
 Lemma aht_append_size thld a leaf a' : aht_append thld a leaf = Ok a' -> a_size a' = a_size a + 1.
@@ -167,37 +209,26 @@ Qed.
 (* what sync() leaves in the two files *)
 Lemma aht_sync_content a a' :
   wf (a_d a) -> wf (a_c a) -> pending (a_c a) = [] -> buf (a_c a) = [] -> 12 * a_latest a <= bufoff (a_c a) ->
+  bufoff (a_c a) = len (durable (a_c a)) ->
   aht_sync a = Ok a' ->
   (a_cnt a = 0 /\ a' = a) \/
   (a_cnt a <> 0 /\ durable (a_d a') = lview (a_d a) /\ pending (a_d a') = [] /\ buf (a_d a') = [] /\
    bufoff (a_d a') = f_offset (a_d a) /\ lview (a_d a') = lview (a_d a) /\
-   12 * (a_latest a + a_cnt a) <= len (durable (a_c a')) /\
+   len (durable (a_c a')) = 12 * (a_latest a + a_cnt a) /\
    a_latest a' = a_latest a + a_cnt a /\ a_size a' = a_size a /\ a_cnt a' = 0).
 Proof.
-  intros Wd Wc Hp Hb H12. unfold aht_sync.
+  intros Wd Wc Hp Hb H12 Hbl. unfold aht_sync.
   destruct (N.eqb_spec (a_cnt a) 0) as [E0|N0].
   - intros E. left. split; [exact E0|congruence].
   - destruct (f_setoffset (a_c a) (12 * a_latest a)) as [c1|] eqn:Es; [|discriminate].
     intros E. right. split; [exact N0|].
     assert (Q: forall x y, @Ok aht x = Ok y -> x = y) by (intros ? ? Q; congruence).
     apply Q in E. subst a'. cbn [a_d a_c a_size a_latest a_cnt].
-    destruct (f_setoffset_spec _ _ _ Wc Es) as (S1 & S2 & S3 & S4 & S5 & _ & _ & _ & _ & S9).
-    specialize (S9 Hb).
     set (ents := aht_entries (a_latest a) (N.to_nat (a_cnt a))) in *.
     assert (Le: len ents = 12 * a_cnt a) by (unfold ents; rewrite len_aht_entries; lia).
-    set (c2 := f_append c1 ents).
-    assert (W2: wf c2) by (apply wf_append; auto).
-    destruct (f_sync_spec c2 W2) as (D1 & D2 & D3 & D4).
+    destruct (clog_rewrite (a_c a) (12 * a_latest a) ents c1 Wc Hp Hb Hbl H12 Es) as (C1 & C2 & C3 & C4 & C5).
     destruct (f_sync_spec (a_d a) Wd) as (E1 & E2 & E3 & E4).
-    assert (Lv1: lview c1 = durable (a_c a)).
-    { unfold lview. rewrite S9, wr_nil. unfold os_view. rewrite S5, S4, Hp. reflexivity. }
-    assert (O1: f_offset c1 = 12 * a_latest a) by exact S3.
-    assert (Ld: len (durable (f_sync c2)) = N.max (len (durable (a_c a))) (12 * (a_latest a + a_cnt a))).
-    { rewrite D1. unfold c2. rewrite lview_append by auto. rewrite Lv1, O1.
-      rewrite len_wr.
-      - rewrite Le. lia.
-      - unfold wf in S2. unfold f_offset in O1. rewrite S9, len_nil in O1.
-        rewrite os_view_nopending in S2 by congruence. rewrite S4 in S2. lia. }
     split; [exact E1|]. split; [exact E2|]. split; [exact E3|]. split; [exact E4|].
-    split; [apply lview_sync; auto|]. split; [rewrite Ld; lia|]. repeat split; reflexivity.
+    split; [apply lview_sync; auto|]. split; [|repeat split; reflexivity].
+    rewrite C5, len_app, len_take, Le. lia.
 Qed.
